@@ -66,6 +66,7 @@ def run(ctx):
     ctx.rule("R15.9", "a cursor p into a string X is never used as a position (X[p], X.substr(p), X.compare(p,..), handed back through a reference parameter) after an increment that was not preceded by a test implying p < X.size(), unless such a test lies in between")
     ctx.rule("R15.10", "CPPPreprocessor::_infile is null once the last input file has been popped (get() tests for it); every other dereference of _infile is behind a test that it is not null")
     ctx.rule("R15.11", "every loop of the preprocessor that consumes tokens can only go round while a test implying `not at end of input` holds (_state != S_eof, !token.is_eof(), token._token == <a real token>)")
+    ctx.rule("R15.12", "the parser entry points (parse_cpp, parse_const_expr, parse_type) install current_lexer before yyparse and restore the previous one last: nothing that reports through current_lexer (yyerror/yywarning, which dereference it) is reachable after the restoring assignment")
     ctx.rule("R15.7", "macro expansion excludes the macro being expanded: nested_ignores.insert(manifest) before the recursive expansion; the pushed expansion suppresses its own macro")
 
     # ------------------------------------------------------------ R15.1
@@ -191,6 +192,7 @@ def run(ctx):
     ctx.info("R15.2: %d position arguments that are loop indices / find() results were enumerated, not judged" % n_not)
 
     scanner_loops(ctx)
+    lexer_restore_order(ctx)
     token_loops(ctx)
     infile_derefs(ctx)
     string_cursors(ctx, thorough)
@@ -810,4 +812,57 @@ def token_loops(ctx):
             ctx.ob("R15.11", "%s|loop@%s" % (f.name, _norm(show(lp.get("c")))[:50] if lp.get("c") else lp["k"]), bad is None, f.loc(lp),
                    "the token loop %s" % ("cannot go round at end of input" if bad is None else "can go round again at end of input: no test of _state / the token against EOF lies on the cycle through `%s`" % show(bad)[:40]))
     ctx.floor("R15.11", "token-consuming loops", n, 5)
+
+
+
+
+def lexer_restore_order(ctx):
+    """R15.12: yyerror()/yywarning() report through the global current_lexer; at top level the saved value restored
+    at the end of parse_cpp() is null, so a diagnostic issued after the restore is a null dereference."""
+    db = ctx.db
+    reporters = set()
+    for f in db.functions:
+        if f.file.endswith("cppBison.cxx") and any(x.get("k") == "mem" and x.get("arrow") and (strip_casts(peel(x.get("b"))) or {}).get("n") == "current_lexer" for x in f.walk()) \
+                or (f.file.endswith("cppBison.cxx") and any(x.get("k") == "call" and "this" in x and (strip_casts(peel(x["this"])) or {}).get("n") == "current_lexer" for x in f.walk())):
+            if f.name.split("::")[-1] in ("cppyyerror", "cppyywarning", "yyerror", "yywarning"):
+                reporters.add(f.name)
+    if not reporters:
+        ctx.broken("R15.12: no yyerror/yywarning that dereferences current_lexer found")
+    n = 0
+    for nm in ("parse_cpp", "parse_const_expr", "parse_type"):
+        for f in db.fns(nm):
+            if not f.file.endswith("cppBison.cxx"):
+                continue
+            cfg = f.cfg
+            restores = []
+            installs = []
+            for x in f.walk():
+                t = assigned_target(x)
+                if t and (strip_casts(peel(t[0])) or {}).get("n") == "current_lexer":
+                    r = local_ref(t[1])
+                    (restores if (r is not None and r.get("dk") == "local") else installs).append(x)
+            if not restores or not installs:
+                ctx.broken("%s: install/restore of current_lexer not found" % nm)
+            n += 1
+            parse = [c for c in f.walk() if c.get("k") == "call" and callee_short(c) in ("cppyyparse", "yyparse")]
+            uses = [c for c in f.walk() if c.get("k") == "call" and (c.get("f") in reporters or callee_short(c) in ("cppyyparse", "yyparse"))]
+            bad = None
+            for r in restores:
+                lr = cfg.locate(r)
+                seen = set()
+                for s0 in cfg.blocks[lr[0]].succs:
+                    if s0 is not None:
+                        seen |= cfg.reachable(s0)
+                for u in uses:
+                    lu = cfg.locate(u)
+                    if lu is not None and ((lu[0] == lr[0] and lu[1] > lr[1]) or lu[0] in seen):
+                        bad = u
+            ctx.ob("R15.12", "%s|no-report-after-restore" % nm, bad is None, f.loc(restores[0]),
+                   "after `%s` %s" % (show(restores[0])[:40], "nothing reports through current_lexer" if bad is None else "`%s` (line %d) still reports through it" % (show(bad)[:40], f.line_of(bad))))
+            # installed before parsing
+            ok = bool(parse) and all(cfg.locate(i) is not None for i in installs) and all(
+                (cfg.locate(i)[0] == cfg.locate(parse[0])[0] and cfg.locate(i)[1] < cfg.locate(parse[0])[1]) or
+                cfg.locate(parse[0])[0] in cfg.reachable(cfg.locate(i)[0]) for i in installs)
+            ctx.ob("R15.12", "%s|installed-before-parse" % nm, ok, f.loc(installs[0]), "current_lexer is installed before yyparse()")
+    ctx.floor("R15.12", "parser entry points", n, 3)
 
